@@ -27,6 +27,8 @@ mod c15;
 mod c16;
 #[cfg(feature = "sdp")]
 mod c17;
+#[cfg(feature = "sdp")]
+mod c18;
 mod selftest;
 
 fn usage() -> ! {
@@ -100,6 +102,8 @@ fn main() {
         "C16" => c16::run(&mut ctx),
         #[cfg(feature = "sdp")]
         "C17" => c17::run(&mut ctx),
+        #[cfg(feature = "sdp")]
+        "C18" => c18::run(&mut ctx),
         _ => {
             eprintln!("unknown property {prop}");
             std::process::exit(2);
